@@ -281,7 +281,7 @@ func genProto(r *vh.Rand, w *vh.LineWriter, next int, tier string) int {
 	per := 120
 	nupd := 250
 	if tier == "thorough" {
-		per, nupd = 20000, 40000
+		per, nupd = 6000, 12000
 	}
 	for _, ty := range pbTypes {
 		for i := 0; i < per; i++ {
